@@ -17,10 +17,13 @@ def handle (op : String) (j : Json) : Except String Json := do
   | "kmers" =>
     let rows ← getNatListList j "rows"
     let k ← getNat j "k"
-    let km := getKmers n k rows
-    let m := Json.mkObj [("rows", intListList km), ("text", strRows (km.map (·.map (fun h => render alphabet k h.toNat))))]
-    let s := Json.mkObj [("rows", intListList (spec k (fun win => (hashLE n win : Int)) rows)),
-                         ("text", strRows (spec k (letters alphabet) rows))]
+    let km := getKmersDispatch n k rows        -- packed path for 4-letter alphabets, generic otherwise
+    let text := (j.getObjValAs? Bool "text").toOption.getD true
+    let m := if text then Json.mkObj [("rows", intListList km), ("text", strRows (km.map (·.map (fun h => render alphabet k h.toNat))))]
+             else Json.mkObj [("rows", intListList km)]
+    let sr := intListList (spec k (fun win => (hashLE n win : Int)) rows)
+    let s := if text then Json.mkObj [("rows", sr), ("text", strRows (spec k (letters alphabet) rows))]
+             else Json.mkObj [("rows", sr)]
     pure (reply m (some s))
   | "minimizers" =>
     let rows ← getNatListList j "rows"
@@ -49,8 +52,13 @@ def handle (op : String) (j : Json) : Except String Json := do
     let k ← getNat j "k"
     let perRow ← getBool j "per_row"
     let labels := Json.arr ((List.range (n ^ k)).map (fun h => str (strOf (render alphabet k h)))).toArray
-    let m := Json.mkObj [("counts", if perRow then natListList (countKmersRows n k rows) else natList (countKmers n k rows)),
-                         ("labels", labels)]
+    let mlabels := fun (l : List (List Nat)) => Json.arr (l.map (fun t => str (strOf t))).toArray
+    let m := if perRow then
+        let lc := countKmersRowsLabeled alphabet k rows
+        Json.mkObj [("counts", natListList lc.2), ("labels", mlabels lc.1)]
+      else
+        let lc := countKmersLabeled alphabet k rows
+        Json.mkObj [("counts", natList lc.2), ("labels", mlabels lc.1)]
     let sp := spec k (fun win => (hashLE n win : Int)) rows
     let s := Json.mkObj [("counts", if perRow then natListList (sp.map (bincount (n ^ k))) else natList (bincount (n ^ k) sp.flatten)),
                          ("labels", labels)]
